@@ -24,7 +24,10 @@ ROOT_NS = {'p': 'urn:p', 'q': 'urn:q', 'r': 'urn:r'}
 URIS = ['urn:p', 'urn:q', 'urn:r', 'urn:p2', 'urn:zzz', 'urn:d']
 # the source uses its own namespace URIs, so that copied source namespace nodes cannot be mistaken for excluded / aliased stylesheet namespaces
 SOURCE = ('<s xmlns:p="urn:srcp" xmlns="urn:sd"><p:x a="1" p:b="2"><y xmlns="" c="3"/>t</p:x><z xmlns:q="urn:srcq" q:k="4"/><w xml:lang="en" xmlns:p="urn:srcp2"/>'
-          '<v xmlns="" xmlns:r="urn:srcr" r:m="5"><r:n/></v></s>')
+          '<v xmlns="" xmlns:r="urn:srcr" r:m="5"><r:n/><u d="6"/></v></s>')
+# the source elements an instruction can copy: the four children of the document element, and (5) an element in no namespace that has NO
+# namespace declaration of its own (xsl:copy of it below a result element with a default namespace must undeclare that namespace itself)
+SEL_PATH = {1: '/*/*[1]', 2: '/*/*[2]', 3: '/*/*[3]', 4: '/*/*[4]', 5: '/*/*[4]/*[2]'}
 FLAGS = set()
 _loaded = []
 
@@ -76,7 +79,7 @@ def instr(draw, depth):
         kids = [draw(attr_instr()) for _ in range(nattr)]
         if draw(st.integers(0, 4)) == 0:
             # the attribute NODES of a source element, copied on their own (their namespace nodes do not come along)
-            kids.insert(draw(st.integers(0, len(kids))), {'k': 'copyattrs', 'sel': draw(st.integers(1, 4)), 'via': draw(st.sampled_from(['copy-of', 'copy']))})
+            kids.insert(draw(st.integers(0, len(kids))), {'k': 'copyattrs', 'sel': draw(st.integers(1, 5)), 'via': draw(st.sampled_from(['copy-of', 'copy']))})
         for _ in range(draw(st.integers(0, 2))):
             kids.append(draw(instr(depth + 1)))
     if k <= 4:
@@ -93,9 +96,9 @@ def instr(draw, depth):
         ns = draw(st.sampled_from([None, None] + URIS + ['']))
         return {'k': 'elem', 'name': name, 'ns': ns, 'avt': draw(st.booleans()), 'c': kids, 'sets': draw(st.sampled_from([None, None, 's2']))}
     if k == 8:
-        return {'k': 'copy', 'sel': draw(st.integers(1, 4)), 'c': kids}
+        return {'k': 'copy', 'sel': draw(st.integers(1, 5)), 'c': kids}
     if k == 9:
-        return {'k': 'copyof', 'sel': draw(st.integers(1, 4))}
+        return {'k': 'copyof', 'sel': draw(st.integers(1, 5))}
     if k == 10:
         return {'k': 'text', 'v': draw(st.sampled_from(['t', ' ', 'x&y']))}
     return {'k': 'lre', 'n': draw(qname(LOCALS)), 'decl': [], 'attrs': [], 'c': kids, 'sets': None}
@@ -179,14 +182,14 @@ def instr_text(n):
     if k == 'attr':
         return attr_text(n)
     if k == 'copyof':
-        return '<xsl:copy-of select="/*/*[%d]"/>' % n['sel']
+        return '<xsl:copy-of select="%s"/>' % SEL_PATH[n['sel']]
     if k == 'copyattrs':
         if n['via'] == 'copy':
-            return '<xsl:for-each select="/*/*[%d]/@*"><xsl:copy/></xsl:for-each>' % n['sel']
-        return '<xsl:copy-of select="/*/*[%d]/@*"/>' % n['sel']
+            return '<xsl:for-each select="%s/@*"><xsl:copy/></xsl:for-each>' % SEL_PATH[n['sel']]
+        return '<xsl:copy-of select="%s/@*"/>' % SEL_PATH[n['sel']]
     kids = ''.join(instr_text(c) for c in n.get('c', []))
     if k == 'copy':
-        return '<xsl:for-each select="/*/*[%d]"><xsl:copy>%s</xsl:copy></xsl:for-each>' % (n['sel'], kids)
+        return '<xsl:for-each select="%s"><xsl:copy>%s</xsl:copy></xsl:for-each>' % (SEL_PATH[n['sel']], kids)
     if k == 'elem':
         name = "{'%s'}" % n['name'] if n['avt'] else n['name']
         ns = '' if n['ns'] is None else ' namespace="%s"' % n['ns']
@@ -227,7 +230,8 @@ def src_model():
 def expected(case):
     """-> expected_tree-style list; raises Invalid when the generated stylesheet would be in error"""
     doc = src_model()
-    srcs = doc.root.children[0].children   # /*/*[n]
+    srcs = list(doc.root.children[0].children)   # /*/*[n]
+    srcs.append(srcs[3].children[1])             # SEL_PATH[5]
     alias_from = alias_to = None
     base = dict(ROOT_NS)
     if case['default_ns']:
